@@ -44,10 +44,16 @@ def vec2(r, core=False, wide=False):
 def vec3(r, core=False, wide=False, kind=None):
     sx, sy, sz = r.choice(SIGNS3)
     s = _mag_scale(r, wide)
-    kind = kind or r.choice(["generic"] * 6 + (["nearaxis", "planeish"] if not core else []))
+    kind = kind or r.choice(["generic"] * 12 + ["zero-x", "zero-y", "zero-z"] + (["nearaxis", "planeish"] * 2 if not core else []))
     x = sx * dyadic(r, 0.1, 10)
     y = sy * dyadic(r, 0.1, 10)
     z = sz * dyadic(r, 0.1, 10)
+    if kind == "zero-x":     # one Cartesian component exactly zero (representable in every system)
+        x = mpf(0)
+    elif kind == "zero-y":
+        y = mpf(0)
+    elif kind == "zero-z":
+        z = mpf(0)
     if kind == "nearaxis":
         f = mpf(2) ** r.choice([-10, -20])
         x, y = x * f, y * f
